@@ -299,6 +299,11 @@ pub fn cmd_ref(args: &Args) -> i32 {
     let idx = args.u64("start", 0);
     let plan = plan_run(seed, idx, &limits(args));
     let refs = reference(&plan);
+    if args.flag("print") {
+        for ((c, op), o) in &refs {
+            println!("REF {} {} {}", c, op.name(), o.to_line());
+        }
+    }
     println!("references computed: {}", refs.len());
     0
 }
